@@ -51,6 +51,9 @@ type Case struct {
 	CutCells float64 // cutoff = -CutCells * cell
 	Combine  bool    // Field.Combine instead of CombineFields
 	Attr     bool    // MarchOnAttribute(Position) instead of March
+	// Channels > 0: the field carries that many further float1 functions next to the distance (a
+	// temperature, a density - what AddField stores per attribute); the marched surface is the distance's
+	Channels int `json:",omitempty"`
 }
 
 func genCase(t *rapid.T) Case {
@@ -106,6 +109,9 @@ func genCase(t *rapid.T) Case {
 	c.CutCells = rapid.SampledFrom([]float64{0, 0, 0.3, 1}).Draw(t, "cut")
 	c.Combine = rapid.Bool().Draw(t, "combine")
 	c.Attr = rapid.Bool().Draw(t, "attr")
+	if rapid.IntRange(0, 2).Draw(t, "withChannels") == 0 {
+		c.Channels = rapid.IntRange(1, 2).Draw(t, "channels")
+	}
 	return c
 }
 
@@ -206,6 +212,18 @@ func runCase(c Case, o *vh.Obs) *vh.Failure {
 	o.Class(fmt.Sprintf("shapes/%d", len(c.Shapes)))
 	if crossed > 0 || len(c.Shapes) > 1 {
 		o.NonTrivial()
+	}
+	if c.Channels > 0 && c.Channels <= 2 {
+		fns := map[string]sample.Vec3ToFloat{}
+		for k, f := range field.Float1Functions {
+			fns[k] = f
+		}
+		fns["temperature"] = func(p vector3.Float64) float64 { return 3 + 0.01*p.X() } // positive everywhere: no surface of its own
+		if c.Channels > 1 {
+			fns["Density"] = func(p vector3.Float64) float64 { return 7 } // sorts before "Position"
+		}
+		field = marching.Field{Domain: field.Domain, Float1Functions: fns, Float2Functions: field.Float2Functions, Float3Functions: field.Float3Functions}
+		o.Class(fmt.Sprintf("extra-float1-channels/%d", c.Channels))
 	}
 	canvas := marching.NewMarchingCanvas(cpu)
 	var m modeling.Mesh
